@@ -1730,6 +1730,14 @@ int main(int argc, char** argv)
                         R.violation(out, full_id(), describe() + " :: [" + sig + "] " + msg);
                     };
 
+                    auto vname = [&](OrangeTrackView const& g) -> std::string {
+                        if (g.is_outside())
+                            return "[outside]";
+                        VolumeId v = g.volume_id();
+                        if (!v || v.get() >= G.params->volumes().size())
+                            return "[invalid]";
+                        return G.params->volumes().at(v).name;
+                    };
                     //// initialise the track ////
                     auto geo = G.track();
                     geo = GeoTrackInitializer{C.pos, C.dir};
@@ -1793,9 +1801,22 @@ int main(int argc, char** argv)
                         Real3 const u_start = geo.dir();
                         VolumeId const vol0 = geo.volume_id();
                         bool const onb0 = geo.is_on_boundary();
-                        int const reg0 = G.vol2reg[vol0.unchecked_get()];
+                        int const reg0 = (!geo.is_outside() && vol0 && vol0.get() < G.vol2reg.size())
+                                             ? G.vol2reg[vol0.unchecked_get()]
+                                             : -1;
                         if (reg0 < 0)
-                            R.harness_error("unmapped volume: " + full_id());
+                        {
+                            // Before the first call only the harness has touched the geometry
+                            // state; afterwards it is the result of the propagation under test
+                            // (and of crossing the boundary it reported): a verdict, not a
+                            // harness problem.
+                            if (j == 0)
+                                R.harness_error("unmapped volume at the start: " + full_id());
+                            viol("flags:geometry-state-invalid-after-propagation",
+                                 fmt("before call %d the track is in no known volume (outside=%d)", j,
+                                     geo.is_outside()));
+                            break;
+                        }
                         Helix H;
                         LD Bcall[3];
                         bool const call_helix = local_field(x_start, sub, Bcall);
@@ -1856,10 +1877,16 @@ int main(int argc, char** argv)
                                     r.looping, vf::dstr(geo.pos()[0]).c_str(), vf::dstr(geo.pos()[1]).c_str(),
                                     vf::dstr(geo.pos()[2]).c_str(), vf::dstr(geo.dir()[0]).c_str(),
                                     vf::dstr(geo.dir()[1]).c_str(), vf::dstr(geo.dir()[2]).c_str(),
-                                    geo.is_on_boundary(),
-                                    geo.is_outside() ? "[outside]"
-                                                     : G.params->volumes().at(geo.volume_id()).name.c_str(),
+                                    geo.is_on_boundary(), vname(geo).c_str(),
                                     tg.n_find, tg.n_accept, tg.n_retry, nst);
+                        }
+                        //// geometry state after the call (checked before anything uses it) ////
+                        if (geo.failed())
+                        {
+                            viol("flags:geometry-failed-after-propagation",
+                                 fmt("call %d: geo.failed() after propagate(%s): dist=%s boundary=%d looping=%d", j,
+                                     vf::dstr(sub).c_str(), vf::dstr(r.distance).c_str(), r.boundary, r.looping));
+                            break;
                         }
                         if (twin)
                         {
@@ -1925,12 +1952,12 @@ int main(int argc, char** argv)
                             stop_traj = true;
                         }
                         if (geo.is_outside() || geo.volume_id() != vol0)
+                        {
                             viol("flags:volume-changed-by-propagation",
-                                 fmt("call %d volume %s -> %s", j,
-                                     G.params->volumes().at(vol0).name.c_str(),
-                                     geo.is_outside()
-                                         ? "[outside]"
-                                         : G.params->volumes().at(geo.volume_id()).name.c_str()));
+                                 fmt("call %d volume %s -> %s", j, G.params->volumes().at(vol0).name.c_str(),
+                                     vname(geo).c_str()));
+                            stop_traj = true;  // the oracles below are for the start volume
+                        }
 
                         //// analytic membership at the end point ////
                         LD pe[3] = {geo.pos()[0], geo.pos()[1], geo.pos()[2]};
